@@ -866,9 +866,17 @@ fn random_case(ts: &[Target], rng: &mut Rng, c: &mut Collector) {
         10 => {
             // strings of 0..3 chars: one-char strings are chars, everything is a String
             let chars = ['a', 'Z', '0', ' ', '\'', '"', '\\', '\n', 'é', '😬', '#', '1', '-', 't'];
-            let n = rng.below(4);
-            let s: String = (0..n).map(|_| *rng.pick(&chars)).collect();
-            one_case(ts, &quoted(&s, rng), &Denotes::Quoted(s), &format!("str{n}"), pos, c);
+            // (... and now and then long ones, with characters of several bytes at any offset: what a
+            // target refuses it has to refuse with an error, whatever it does to the text for its message)
+            let (n, class) = if rng.chance(1, 4) {
+                (rng.range(8, 70), "str-long".to_string())
+            } else {
+                let n = rng.below(4);
+                (n, format!("str{n}"))
+            };
+            let wide = ['１', '２', '９', 'é', '😬', '0', '1', '7', 'a', '.', '-', '_'];
+            let s: String = (0..n).map(|_| if n >= 8 { *rng.pick(&wide) } else { *rng.pick(&chars) }).collect();
+            one_case(ts, &quoted(&s, rng), &Denotes::Quoted(s), &class, pos, c);
         }
         _ => {
             // non-literal expressions and paths as values
